@@ -396,6 +396,15 @@ def deserialize_bytes(stream, **kwargs):
 
     return stream.read(length)
 
+def _freeze(obj):
+    """ a tuple is serialized as a sequence, which is deserialized as a list.
+    Restore the tuple when the sequence is used as a map key or set member,
+    where it must be hashable (and therefore can not have been a list)
+    """
+    if isinstance(obj, list):
+        return tuple(_freeze(o) for o in obj)
+    return obj
+
 def deserialize_map(stream, **kwargs):
     length = deserialize_value(stream, **kwargs)
 
@@ -407,7 +416,7 @@ def deserialize_map(stream, **kwargs):
 
     obj = {}
     for i in range(length):
-        k = deserialize_value(stream, **kwargs)
+        k = _freeze(deserialize_value(stream, **kwargs))
         v = deserialize_value(stream, **kwargs)
         obj[k] = v
 
@@ -442,7 +451,7 @@ def deserialize_set(stream, **kwargs):
     if length > MAX_ARRAY_LENGTH:
         raise ValueError("set length too large: %d" % length)
 
-    obj = set([deserialize_value(stream, **kwargs) for i in range(length)])
+    obj = set([_freeze(deserialize_value(stream, **kwargs)) for i in range(length)])
 
     return obj
 
